@@ -51,13 +51,20 @@ def gen(rnd, big=False, as_much_share=0.12):
         if p['kind'] in ('agg_room', 'var', 'clause', 'cmp') and rnd.random() < 0.25:
             pool = list(range(1, n + 2))
             p['only'] = sorted(rnd.sample(pool, min(len(pool), rnd.choice([1, 2]))))
-    return dict(rooms=n, shelves=shelves, card=card, prefs=prefs)
+    # the author's variable names: plain letters, or legal names with digits / underscores (the model's names are irrelevant: both sides are
+    # renamed by first occurrence)
+    names = rnd.choice([('R', 'S', 'W'), ('R', 'S', 'W'), ('R1', 'S_2', 'W3'), ('X1', 'Y2', 'Z_3')])
+    return dict(rooms=n, shelves=shelves, card=card, prefs=prefs, names=names)
 
 
-def render_pref(p):
+def render_pref(p, names=('R', 'S', 'W')):
     t = render_pref0(p)
     if p.get('only'):
         t = t[:-1] + ', where R is one of %s.' % ', '.join(str(v) for v in p['only'])
+    if tuple(names) != ('R', 'S', 'W'):
+        import re
+        m = dict(zip(('R', 'S', 'W'), names))
+        t = re.sub(r'(?<![A-Za-z0-9_])([RSW])(?![A-Za-z0-9_])', lambda x: m[x.group(1)], t)
     return t
 
 
@@ -92,7 +99,7 @@ def render(spec):
     ct = ct % tuple(c[1:]) if c[0] != 'none' else ct
     lines.append('Every room can host %sshelf.' % ct)
     for p in spec['prefs']:
-        lines.append(render_pref(p))
+        lines.append(render_pref(p, spec.get('names', ('R', 'S', 'W'))))
     return '\n'.join(lines) + '\n'
 
 
